@@ -48,8 +48,10 @@ pub open spec fn writes_ok(out: Seq<CompiledItem>, d: int, c: int) -> bool {
 #[verifier::external_body]
 pub fn compile_depth(e: &Expr, s: &mut State, depth: Reg) -> (r: Result<Vec<CompiledItem>, VErr>)
     requires reg_id(&depth) < count(old(s)), reg_owned(&depth)          // the callee releases the register it is given: it must be one the allocator handed out
-    ensures count(final(s)) == count(old(s)) - 1, r is Ok ==> writes_ok(r->Ok_0@, reg_id(&depth), count(old(s)))
+    ensures count(final(s)) == count(old(s)) - 1, r is Ok ==> writes_ok(r->Ok_0@, reg_id(&depth), count(old(s))),
+            r is Ok ==> r->Ok_0@ == code_of(*e, count(old(s)), reg_id(&depth))        // WHICH code: the code of that expression (for the twin obligation below)
 { unimplemented!() }
+pub uninterp spec fn code_of(e: Expr, c: int, d: int) -> Seq<CompiledItem>;
 #[verifier::external_body] pub fn vpanic() requires false { unimplemented!() }
 
 // `a && b` / `a || b`:  out = code(a) ++ [store_skip d p n] ++ code(b) ++ [load_fast d, bin_op sym]
@@ -170,7 +172,16 @@ pub fn compile_depth_binop(lhs_raw: &Expr, op: &Op, rhs: &Expr, state: &mut Stat
 }} // verus!
 fn main() {{}}
 """
-    obls = [Obl("C15.binop.layout", ["C15", "C09", "C12", "C01"], fn="compile_depth_binop",
+    # twin obligation for known finding D79: by the property the operands of `place op= value` are evaluated left to right -- the place's own
+    # sub-expressions (index, receiver) before the value; the code evaluates the value first
+    i0 = gen.index("//@ OBL C15.binop.layout"); i1 = gen.index("}} // verus!") if "}} // verus!" in gen else gen.index("} // verus!")
+    fn_txt = gen[i0:i1]
+    twin = fn_txt.replace("//@ OBL C15.binop.layout", "//@ KF C15.binop.opassign-order").replace("pub fn compile_depth_binop(", "pub fn compile_depth_binop_opassign_order(") \
+        .replace("    ensures\n", "    ensures\n        (r is Ok && is_assign_op(*op) && (lhs_raw is DotLookup || lhs_raw is Index)) ==> ({ let l = code_of(*lhs_raw, count(old(state)) + 1, count(old(state))); r->Ok_0@.len() >= l.len() && r->Ok_0@.subrange(0, l.len() as int) == l }),\n", 1)
+    gen = gen[:i1] + twin + gen[i1:]
+    obls = [Obl("C15.binop.opassign-order", ["C15"], kind="kf", finding="D79", fn="compile_depth_binop_opassign_order",
+                desc="`place op= value` on an element / field: the place's own sub-expressions are evaluated before the value (left to right) -- known finding D79: the value's code comes first"),
+            Obl("C15.binop.layout", ["C15", "C09", "C12", "C01"], fn="compile_depth_binop",
                 desc="compile_depth BinOp arm: left operand's code strictly before the right operand's, each once; &&/|| emit store_skip with the skip landing one past the final bin_op (right operand not evaluated); the register holding the left value is not written by the right operand's code; for all operand code")]
     return gen, obls, log
 
